@@ -51,6 +51,24 @@ func (x *Exec) lockOp(st *State, recv Val, lock bool) {
 		}
 		st.held = append(st.held, key)
 		st.lockLog = append(st.lockLog, key)
+		// monitor invariant: whoever held the mutex before left the object's
+		// invariants established (every release is checked, below and at the
+		// exits of the type's own methods)
+		if recv.Loc != nil && recv.Loc.Kind == LField && x.fn != nil {
+			if named, ok := recv.Loc.ST.(*types.Named); ok && named.Obj().Pkg() != nil {
+				own := false
+				if rc := rootFn(x.fn).Signature.Recv(); rc != nil && recvTypeName(rc.Type()) == named.Obj().Name() {
+					own = true
+				}
+				if invs := x.cs.ObjInvs[named.Obj().Pkg().Path()+"."+named.Obj().Name()]; len(invs) > 0 && !own {
+					self := Val{T: recv.Loc.Base, Typ: types.NewPointer(named)}
+					env := &Env{x: x, st: st, vars: map[string]Val{"self": self}, pkg: named.Obj().Pkg()}
+					for _, c := range invs {
+						st.assume(x.evalBool(env, c.Expr))
+					}
+				}
+			}
+		}
 		return
 	}
 	// monitor invariant: whoever releases an object's mutex leaves the
